@@ -96,6 +96,20 @@ def judgeStep (html booster : Bool) (bs : Bytes) (val : String) (cons : Nat) : B
       val == "ill" || (booster && val == "inc")
     | some (cp, _) => val == "ill" && !Spec.modeOk html cp
 
+def cpsStr (l : List Nat) : String := if l.isEmpty then "-" else String.intercalate "," (l.map toString)
+def parseCps (s : String) : Option (List Nat) :=
+  if s == "-" then some [] else (s.splitOn ",").mapM (·.toNat?)
+
+/-- judge of `utf_to_utf<char>(char…)`: `out` = "throw" or hex.  Spec only. -/
+def judgeU2U (how : String) (s : Bytes) (out : String) : Bool :=
+  let wf := (Spec.wellFormedCount false s).isSome
+  if out == "throw" then how == "1" && !wf
+  else match parseHex out with
+    | none => false
+    | some o => (Spec.wellFormedCount false o).isSome && (!wf || o == s) && (how != "1" || wf)
+
+def scalarB (c : Nat) : Bool := c ≤ 0x10FFFF && !(0xD800 ≤ c && c ≤ 0xDFFF)
+
 def step (_ : Unit) (line : String) : Unit × String :=
   let r : String :=
     match words line with
@@ -132,7 +146,34 @@ def step (_ : Unit) (line : String) : Unit × String :=
     | ["known", n] => match parseHex n with
       | some n => (match getTester (nm n) with | none => "0" | some _ => "1") ++ " " ++ boolStr (isUtf8 (nm n))
       | none => "bad-op"
+    | ["u2u", how, h] => match how.toNat?, parseHex h with
+      | some hw, some s => (match Boost.utf8ToUtf8 hw s with | none => "throw" | some o => toHex o)
+      | _, _ => "bad-op"
+    | ["u2w", how, h] => match how.toNat?, parseHex h with
+      | some hw, some s => (match Boost.utf8ToCps hw s with | none => "throw" | some o => cpsStr o)
+      | _, _ => "bad-op"
+    | ["w2u", how, cs] => match how.toNat?, parseCps cs with
+      | some hw, some us => (match Boost.utf32ToUtf8 hw us with | none => "throw" | some o => toHex o)
+      | _, _ => "bad-op"
     -- judges (Spec only)
+    | ["J", "u2u", how, h, out] => match parseHex h with
+      | some s => boolStr (judgeU2U how s out) | none => "bad-op"
+    | ["J", "u2w", how, h, out] => match parseHex h with
+      | some s =>
+        let wf := (Spec.wellFormedCount false s).isSome
+        if out == "throw" then boolStr (how == "1" && !wf)
+        else (match parseCps out with
+          | some cps => boolStr (cps.all scalarB && (!wf || (cps.map Spec.encode).flatten == s) && (how != "1" || wf))
+          | none => "0")
+      | none => "bad-op"
+    | ["J", "w2u", how, cs, out] => match parseCps cs with
+      | some us =>
+        let ok := us.all scalarB
+        if out == "throw" then boolStr (how == "1" && !ok)
+        else (match parseHex out with
+          | some o => boolStr ((Spec.wellFormedCount false o).isSome && (!ok || o == (us.map Spec.encode).flatten) && (how != "1" || ok))
+          | none => "0")
+      | none => "bad-op"
     | ["J", "d", which, h, val, cons] => match parseHex h, cons.toNat? with
       | some s, some k => boolStr (judgeStep (which == "c1") (which == "b") s val k)
       | _, _ => "bad-op"
